@@ -140,7 +140,8 @@ def float_case(draw, ctx):
     nq = draw(st.integers(1, 12))
     qs = []
     for _ in range(nq):
-        kind = draw(st.sampled_from(["elem", "ulp+", "ulp-", "mid", "between", "below", "above", "dup"]))
+        kind = draw(st.sampled_from(["elem", "ulp+", "ulp-", "mid", "between", "below", "above", "dup", "near-mid",
+                                     "near-mid"]))
         i = draw(st.integers(0, m - 1))
         if kind == "elem":
             v = x[i]
@@ -150,6 +151,11 @@ def float_case(draw, ctx):
             v = math.nextafter(x[i], -math.inf)
         elif kind == "mid" and i + 1 < m:
             v = x[i] + (x[i + 1] - x[i]) / 2
+        elif kind == "near-mid" and i + 1 < m:
+            # just off the midpoint of a gap: the nearer neighbour is well defined but only by a small margin
+            k = draw(st.integers(8, 44))
+            sgn = draw(st.sampled_from([-1.0, 1.0]))
+            v = x[i] + (x[i + 1] - x[i]) * (0.5 + sgn * 2.0 ** -k)
         elif kind == "between" and i + 1 < m:
             t = draw(fl(0.0, 1.0))
             v = x[i] + t * (x[i + 1] - x[i])
@@ -177,11 +183,24 @@ def float_body(ctx, case):
     ctx.record(case, cls, nt)
 
 
+def fuzz_body(ctx, case):
+    """replay of a case found by the coverage-guided campaign"""
+    from twv import fuzz_scans
+    msg = fuzz_scans.replay(case)
+    if msg:
+        raise Violation(msg)
+    ctx.record(case, ["fuzz-replay"], True)
+
+
 SUBCHECKS = [
     Sub("lattice", "enum", lattice_body, cases=lattice_cases, shards=16, exhaustive=True,
         clause="all three searches, fill on/off, dispatcher: exact agreement with the brute-force definition"),
     Sub("floats", "hyp", float_body, strategy=float_case, quick=600, thorough=16000,
         clause="same on float arrays with ulp-adjacent, midpoint and out-of-range queries"),
+    Sub("fuzz", "fuzz", fuzz_body, machine="twv.fuzz_scans", quick=20000, thorough=600000, shards=16,
+        clause="coverage-guided (atheris/libFuzzer) search over arrays of <= 48 elements on a quarter-integer lattice "
+               "with queries on the eighth-integer lattice: three scans, dispatcher, and truncation (C11) against the "
+               "brute-force definitions"),
 ]
 
 TECHNIQUE = ("exhaustive enumeration of a finite lattice (itertools, 16 processes) + Hypothesis-generated float "
